@@ -409,6 +409,11 @@ def c05(tier, seed):
     lifecycle_runs = [0]
 
     def on_event(ev, job, run):
+        if ev["kind"] == "deadlock" and "'livelock': True" in ev["detail"] and (run.get("sched") or {}).get("policy") != "random":
+            # the schedule bound was reached under a deliberately unfair policy (PCT / burst / user-last keep a never-blocking source node
+            # running; every other thread only gets the fairness quota): slow progress, not a stall. rex assumes a fair OS scheduler.
+            rep.note(f"{job['id']} history={run['history']} sched={run.get('sched')}: schedule bound reached under an unfair policy (inconclusive): {ev['detail'][:120]}")
+            return True
         if ev["kind"] in ("deadlock", "exception", "task_error"):
             sig = dict(kind=ev["kind"], history=job["id"].split("/")[-1])
             rep.violation(sig, dict(kind="lifecycle", job={k: job[k] for k in job if k != "runs"}, run=dict(history=run["history"], sched=run.get("sched")),
@@ -441,6 +446,9 @@ def c05(tier, seed):
                 ["stop", "run", "stop", "stop", "reset", "step", "stop"]]
     out_it, dl = internalchecks.internal_campaign(rep, "C05", it_cfgs, it_hists, 2 if quick else 6, seed, POLICIES)
     for o in dl:
+        if "'livelock': True" in o["detail"] and (o.get("sched") or {}).get("policy") != "random":
+            rep.note(f"{o['id']}: schedule bound reached under an unfair policy (inconclusive)")
+            continue
         rep.violation(dict(kind="deadlock", history="internal"), dict(kind="lifecycle_internal", run=o), text=f"{o['id']}: logical deadlock / lifecycle exception under the coarse gate: {o['detail'][-300:]}")
     if not quick:
         internalchecks.mc_rexasync(rep, "MC_RexAsync_A2.cfg", common.NPROC)
